@@ -124,6 +124,48 @@ Proof. intros H. unfold sgn. destruct (z <? 0) eqn:E; [lia|]. destruct (0 <? z) 
 Lemma sgn_0 : sgn 0 = 0.
 Proof. reflexivity. Qed.
 
+(* the static loops, on C strings *)
+Lemma m_compare_spec a : forall b fuel, cbytes a = true -> cbytes b = true -> (length a < fuel)%nat ->
+  sgn (m_compare fuel (a ++ [0]) (b ++ [0])) = lexcmp a b.
+Proof.
+  induction a as [|x a IH]; intros b fuel Ha Hb Hf; (destruct fuel as [|f]; [cbn in Hf; lia|]).
+  - destruct b as [|y b]; cbn [m_compare app hd tl lexcmp].
+    + reflexivity.
+    + apply cbytes_cons in Hb. destruct Hb as (Hy & _).
+      destruct (0 =? y) eqn:E; [lia|]. apply sgn_neg. lia.
+  - apply cbytes_cons in Ha. destruct Ha as (Hx & Ha).
+    destruct b as [|y b]; cbn [m_compare app hd tl lexcmp].
+    + destruct (x =? 0) eqn:E; [lia|]. apply sgn_pos. lia.
+    + apply cbytes_cons in Hb. destruct Hb as (Hy & Hb).
+      destruct (x =? y) eqn:E.
+      * destruct (x =? 0) eqn:E0; [lia|].
+        destruct (x <? y) eqn:E1; [lia|]. destruct (y <? x) eqn:E2; [lia|].
+        apply IH; auto. cbn in Hf. lia.
+      * destruct (x <? y) eqn:E1; [apply sgn_neg; lia|].
+        destruct (y <? x) eqn:E2; [apply sgn_pos; lia|lia].
+Qed.
+
+Lemma m_compare_n_spec n : forall a b, cbytes a = true -> cbytes b = true ->
+  sgn (m_compare_n n (a ++ [0]) (b ++ [0])) = lexcmp (firstn n a) (firstn n b).
+Proof.
+  induction n as [|n IH]; intros a b Ha Hb.
+  - destruct a, b; reflexivity.
+  - destruct a as [|x a].
+    + destruct b as [|y b]; cbn [m_compare_n app hd tl lexcmp firstn].
+      * reflexivity.
+      * apply cbytes_cons in Hb. destruct Hb as (Hy & _). cbn. apply sgn_neg. lia.
+    + apply cbytes_cons in Ha. destruct Ha as (Hx & Ha).
+      destruct b as [|y b]; cbn [m_compare_n app hd tl lexcmp firstn].
+      * destruct (x =? 0) eqn:E; [lia|]. cbn. apply sgn_pos. lia.
+      * apply cbytes_cons in Hb. destruct Hb as (Hy & Hb).
+        destruct (x =? 0) eqn:E0; [lia|]. cbn [orb].
+        destruct (x =? y) eqn:E; cbn [negb].
+        -- destruct (x <? y) eqn:E1; [lia|]. destruct (y <? x) eqn:E2; [lia|]. apply IH; auto.
+        -- destruct (x <? y) eqn:E1; [apply sgn_neg; lia|].
+           destruct (y <? x) eqn:E2; [apply sgn_pos; lia|lia].
+Qed.
+
+
 (* for ALL lists (embedded NUL bytes included) *)
 Lemma m_cmp_spec a : forall b, sgn (m_cmp a b) = lexcmp a b.
 Proof.
@@ -453,4 +495,66 @@ Lemma s_replace_loop nee rep hay cap0 : nee <> [] ->
 Proof.
   intros NE. destruct (m_replace_spec nee rep NE (S (length hay)) hay [] cap0) as (A & B); [lia|cbn; lia|].
   split; [|exact B]. rewrite A. unfold s_replace. destruct nee; [congruence|reflexivity].
+Qed.
+
+(* ---- the static helpers on C strings ---- *)
+Local Open Scope Z_scope.
+Lemma nulfree_cons x l : nulfree (x :: l) = true -> (x =? 0)%Z = false /\ nulfree l = true.
+Proof. unfold nulfree. cbn. intros H. apply andb_true_iff in H. destruct H as (H1 & H2). destruct (x =? 0)%Z; auto; discriminate. Qed.
+
+Lemma m_strlen_spec l : nulfree l = true -> m_strlen (l ++ [0%Z]) = length l.
+Proof.
+  induction l as [|x t IH]; intros H; cbn; auto.
+  apply nulfree_cons in H. destruct H as (H1 & H2). rewrite H1, IH; auto.
+Qed.
+
+Lemma m_sfind_spec c l : nulfree l = true -> forall i, m_sfind (l ++ [0%Z]) c i = m_find_c l c i.
+Proof.
+  induction l as [|x t IH]; intros H i; cbn; auto.
+  apply nulfree_cons in H. destruct H as (H1 & H2). rewrite H1. destruct (x =? c); auto.
+Qed.
+
+Lemma m_sfindlast_spec c l : nulfree l = true -> forall i last, m_sfindlast (l ++ [0%Z]) c i last = m_findlast_c l c i last.
+Proof.
+  induction l as [|x t IH]; intros H i last; cbn; auto.
+  apply nulfree_cons in H. destruct H as (H1 & H2). rewrite H1. apply IH. exact H2.
+Qed.
+
+Lemma starts_mirror a b : cbytes a = true -> cbytes b = true ->
+  (m_compare_n (length b) (a ++ [0%Z]) (b ++ [0%Z]) =? 0)%Z = is_prefix b a.
+Proof.
+  intros Ha Hb. pose proof (m_compare_n_spec (length b) a b Ha Hb) as M. rewrite (firstn_all b) in M.
+  rewrite is_prefix_firstn.
+  destruct (list_eqb (firstn (length b) a) b) eqn:E.
+  - apply list_eqb_eq in E. rewrite E in M. rewrite (proj2 (lexcmp_eq b b) eq_refl) in M.
+    apply (proj1 (sgn_zero _)) in M. rewrite M.
+    assert (L : (length b <= length a)%nat).
+    { apply (f_equal (@length Z)) in E. rewrite firstn_length in E. lia. }
+    apply Nat.leb_le in L. rewrite L. reflexivity.
+  - rewrite andb_false_r.
+    destruct (m_compare_n (length b) (a ++ [0%Z]) (b ++ [0%Z]) =? 0)%Z eqn:E2; auto.
+    apply Z.eqb_eq in E2. rewrite E2, sgn_0 in M. symmetry in M. apply (proj1 (lexcmp_eq _ _)) in M.
+    apply list_eqb_eq in M. congruence.
+Qed.
+
+Lemma stat_mirror q a b :
+  match q with
+  | QEqualsICN _ => True
+  | _ => cbytes a = true /\ cbytes b = true
+  end -> m_stat q a b = s_stat q a b.
+Proof.
+  destruct q; cbn [m_stat s_stat]; intros H.
+  - destruct H as (Ha & Hb). apply m_compare_spec; auto.
+  - destruct H as (Ha & Hb). apply m_compare_n_spec; auto.
+  - destruct H as (Ha & Hb). rewrite !map_lowt. rewrite <- (map_length lower a).
+    apply m_compare_spec; auto using cbytes_map_lower.
+  - destruct H as (Ha & Hb). rewrite !map_lowt. rewrite m_compare_n_spec by auto using cbytes_map_lower.
+    rewrite <- !firstn_map. reflexivity.
+  - rewrite m_cmp_eqb, !map_lowt. reflexivity.
+  - destruct H as (Ha & Hb). rewrite starts_mirror; auto.
+  - destruct H as (Ha & Hb). rewrite m_strlen_spec; auto. unfold cbytes in Ha. apply andb_true_iff in Ha. tauto.
+  - destruct H as (Ha & Hb). unfold cbytes in Ha. apply andb_true_iff in Ha. destruct Ha as (_ & Ha).
+    rewrite m_sfind_spec by exact Ha. rewrite m_find_c_spec. destruct (find_first (P_chr c) a); reflexivity.
+  - destruct H as (Ha & Hb). unfold cbytes in Ha. apply andb_true_iff in Ha. destruct Ha as (_ & Ha).
+    rewrite m_sfindlast_spec by exact Ha. rewrite m_findlast_c_spec. destruct (find_last (P_chr c) a); reflexivity.
 Qed.
